@@ -328,9 +328,13 @@ def decorate(rng, rel: str, root: Path, base: str) -> str:
     return rel
 
 
-def gen_entry_path(rng, root: Path, cfg_dir_given: str, targets: list[str]) -> str:
+def gen_entry_path(rng, root: Path, cfg_dir_given: str, targets: list[str], cwd_real: str | None = None) -> str:
     """an amend `path`: mostly a (respelled) way from the config directory to some directory/file/link"""
     r = rng.random()
+    if cwd_real is not None and rng.random() < 0.12:
+        # the way from the WORKING directory to a target: when the config file lives elsewhere this names something
+        # under the working directory but (usually) nothing under the config directory — it must then cover nothing
+        return os.path.relpath(rng.choice(targets), cwd_real)
     if r < 0.06:
         return rng.choice(["", ".", "./", ".."])
     if r < 0.14:
@@ -343,11 +347,11 @@ def gen_entry_path(rng, root: Path, cfg_dir_given: str, targets: list[str]) -> s
     return decorate(rng, rel, root, cfg_real)
 
 
-def gen_table(rng, root: Path, cfg_dir_given: str, targets: list[str]) -> list[dict]:
+def gen_table(rng, root: Path, cfg_dir_given: str, targets: list[str], cwd_real: str | None = None) -> list[dict]:
     table = []
     for _ in range(rng.choice([1, 1, 1, 2, 2, 3])):
         n = rng.choice([1, 1, 2, 3])
-        table.append({"path": gen_entry_path(rng, root, cfg_dir_given, targets), "ignore": rng.sample(IGNORE_ATOMS, n)})
+        table.append({"path": gen_entry_path(rng, root, cfg_dir_given, targets, cwd_real), "ignore": rng.sample(IGNORE_ATOMS, n)})
     return table
 
 
@@ -421,7 +425,7 @@ def gen_scenarios(rng, root: Path, n: int) -> list[Scenario]:
             cfg_given = spell_config(rng, cfg_abs, cwd_real)
             cfg_dir_given = os.path.join(cwd_real, os.path.dirname(cfg_given))
             cfg_write = cfg_abs
-        table = gen_table(rng, root, cfg_dir_given, targets)
+        table = gen_table(rng, root, cfg_dir_given, targets, cwd_real)
         extra = rng.choice([None, None, None, ["FURB999"], ["#nosuch"]])
         out.append(Scenario(idx=i, cwd=cwd_given, cwd_real=cwd_real, placement=label, cfg_given=cfg_given, cfg_write=cfg_write, table=table, extra_ignore=extra))
     return out
